@@ -53,7 +53,8 @@ func (a *Auth) ParseAuthorization(authStr string) (err error) {
 			return err
 		}
 
-		tmp := strings.Split(string(authInfo), ":")
+		// 注意，密码中允许包含冒号，只在第一个冒号处分割
+		tmp := strings.SplitN(string(authInfo), ":", 2)
 		if len(tmp) != 2 {
 			return fmt.Errorf("invalid Authorization:%s", authStr)
 		}
